@@ -77,11 +77,6 @@ theorem mul128_spec (x y : BitVec 64) :
   exact (mul128_core _ _ _ _ h1 h2 h3 h4).trans key.symm
 
 
-theorem mod_eq_cert (a b : Nat) (h : a % P = b % P) : a + P * (b / P) = b + P * (a / P) := by
-  have h1 := Nat.div_add_mod a P
-  have h2 := Nat.div_add_mod b P
-  omega
-
 /-- 2^64 = 2^32 - 1 and 2^96 = -1 (mod p): the reduction identity behind reduce_*_128_64 -/
 theorem reduce128_core (u hh hl cl r : Nat) (h1 : (u + hh) % P = cl % P)
     (h2 : r % P = (u + hl * 4294967295) % P) :
